@@ -1,4 +1,11 @@
-import Hive.Proofs.SafeMathI64
+import Hive.Props.C19Add
+import Hive.Props.C19Sub
+import Hive.Props.C19Mul
+import Hive.Props.C19Div
+import Hive.Props.C19Shl
+import Hive.Props.C19MulU64
+import Hive.Props.C19MulI64
+import Hive.Props.C19MulDiv
 import Hive.Proofs.SafeMathErr
 /-!
 # C19 — safemath returns the exact result or an overflow error, never wraps
@@ -18,37 +25,6 @@ theorem C19_exact_spec (T : IntTy) (z : Int) :
       exact T z ≠ .divzero ∧ exact T z ≠ .panic := by
   unfold exact
   by_cases h : T.InRange z <;> simp [h]
-
-theorem C19_add_exact (T : IntTy) (hw : 0 < T.bits) (x y : Int) (hx : T.InRange x) (hy : T.InRange y) :
-    SafeAdd T x y = exact T (x + y) := safeAdd_exact T hw x y hx hy
-
-theorem C19_sub_exact (T : IntTy) (hw : 0 < T.bits) (x y : Int) (hx : T.InRange x) (hy : T.InRange y) :
-    SafeSub T x y = exact T (x - y) := safeSub_exact T hw x y hx hy
-
-theorem C19_mul_exact (T : IntTy) (hw : 0 < T.bits) (x y : Int) (hx : T.InRange x) (hy : T.InRange y) :
-    SafeMul T x y = exact T (x * y) := safeMul_exact T hw x y hx hy
-
-/-- Division: division-by-zero error iff the divisor is 0, otherwise the exact truncated quotient or
-overflow (`MinInt / -1`). -/
-theorem C19_div_exact (T : IntTy) (hw : 0 < T.bits) (x y : Int) (hx : T.InRange x) (hy : T.InRange y) :
-    SafeDiv T x y = if y = 0 then .divzero else exact T (x.tdiv y) := safeDiv_exact T hw x y hx hy
-
-/-- Left shift by any count `n` (Go passes a `uint8`, every count 0..255 is covered). -/
-theorem C19_shl_exact (T : IntTy) (hw : 0 < T.bits) (v : Int) (n : Nat) (hv : T.InRange v) :
-    SafeLeftShift T v (n : Int) = exact T (v * 2 ^ n) := safeLeftShift_exact T hw v n hv
-
-theorem C19_mulU64_exact (x y : Int) (hx : IntTy.u64.InRange x) (hy : IntTy.u64.InRange y) :
-    SafeMulUint64 x y = exact IntTy.u64 (x * y) := safeMulUint64_exact x y hx hy
-
-theorem C19_mulI64_exact (x y : Int) (hx : IntTy.i64.InRange x) (hy : IntTy.i64.InRange y) :
-    SafeMulInt64 x y = exact IntTy.i64 (x * y) := safeMulInt64_exact x y hx hy
-
-/-- `Safe64MulDiv`: `(x*y)/d` exactly, overflow iff the quotient needs more than 64 bits, division by
-zero iff `d = 0`; in particular `bits.Div64` is never called with arguments that make it panic. -/
-theorem C19_mulDiv64_exact (x y d : Int) (hx : IntTy.u64.InRange x) (hy : IntTy.u64.InRange y)
-    (hd : IntTy.u64.InRange d) :
-    Safe64MulDiv x y d = if d = 0 then .divzero else exact IntTy.u64 (x * y / d) :=
-  safe64MulDiv_exact x y d hx hy hd
 
 /-- Every function named by the property was found in the source and translated. -/
 theorem C19_all_translated :
@@ -130,20 +106,6 @@ theorem C19_mul_twins (x y : Int) :
   constructor
   · intro hx hy; rw [C19_mulU64_exact x y hx hy, C19_mul_exact IntTy.u64 (by decide) x y hx hy]
   · intro hx hy; rw [C19_mulI64_exact x y hx hy, C19_mul_exact IntTy.i64 (by decide) x y hx hy]
-
-/-- `Safe64MulDiv`, clause by clause: exact floor quotient when it fits, overflow only when it does not, division by zero
-exactly for a zero divisor, and never the panic of `bits.Div64`. -/
-theorem C19_mulDiv64_clauses (x y d r : Int) (hx : IntTy.u64.InRange x) (hy : IntTy.u64.InRange y)
-    (hd : IntTy.u64.InRange d) :
-    (Safe64MulDiv x y d = .ok r → d ≠ 0 ∧ r = x * y / d ∧ IntTy.u64.InRange r) ∧
-    (Safe64MulDiv x y d = .overflow → d ≠ 0 ∧ ¬ IntTy.u64.InRange (x * y / d)) ∧
-    (Safe64MulDiv x y d = .divzero ↔ d = 0) ∧ Safe64MulDiv x y d ≠ .panic := by
-  rw [C19_mulDiv64_exact x y d hx hy hd]
-  by_cases hd0 : d = 0
-  · simp [hd0]
-  · simp only [if_neg hd0, hd0, iff_false, ne_eq, not_false_eq_true, true_and]
-    refine ⟨?_, (exact_overflow_iff _ _).mp, (C19_exact_spec _ _).2.2.1, (C19_exact_spec _ _).2.2.2⟩
-    intro h; obtain ⟨a, b⟩ := (exact_ok_iff _ _ r).mp h; exact ⟨a, a ▸ b⟩
 
 /-- The full statement of the property over the model: for each of the eight Go types and all operands. -/
 def C19_statement : Prop :=
